@@ -14,6 +14,7 @@ from typing import (
 from .types import (
     Intersection,
     Order,
+    Union,
     clsstring,
     get_args,
     normalize_type,
@@ -249,7 +250,8 @@ class Equals(ParametrizedDependentType):
     keyable_type = True
 
     def default_bound(self, *parameters):
-        return type(parameters[0])
+        types = sorted({type(p) for p in parameters}, key=lambda t: t.__name__)
+        return types[0] if len(types) == 1 else Union[tuple(types)]
 
     def check(self, value):
         return value in self.parameters
@@ -259,7 +261,7 @@ class Equals(ParametrizedDependentType):
         return "{arg}"
 
     def get_keys(self):
-        return [self.parameter]
+        return list(self.parameters)
 
     def codegen(self):
         if len(self.parameters) == 1:
